@@ -7,7 +7,7 @@ Token grammar for term lists (shared by the C02/C04/C05/C16 drivers)
 terms   := <k> term^k
 term    := "I" | marg | "T" <k> <by|-1> marg^k
 marg    := "L" <feat> <e0> <e1> lamspec
-         | "S" <feat> <n> <p> <cyclic:0|1> <by|-1> <e0> <e1> lamspec conspec
+         | "S" <feat> <n> <p> <flag: 0 ps | 1 cp | 2 ps categorical | 3 cp categorical> <by|-1> <e0> <e1> lamspec conspec
          | "F" <feat> <ncat> <dummy:0|1> <e0> <e1> lamspec
 lamspec := <m> (<penalty-kind> <lam>)^m      penalty-kind ∈ auto derivative l2 none periodic
 conspec := <m> <constraint-kind>^m           constraint-kind ∈ none convex concave monotonic_inc monotonic_dec
@@ -81,16 +81,17 @@ def pMarg : P (Marg Rat)
       let (f, r) ← pNat r
       let (n, r) ← pNat r
       let (p, r) ← pNat r
-      let (cyc, r) ← pBool r
+      -- basis / dtype flag: 0 = ps numerical, 1 = cp numerical, 2 = ps categorical, 3 = cp categorical
+      let (flag, r) ← pNat r
       let (b, r) ← pOptNat r
       let (e0, r) ← pRat r
       let (e1, r) ← pRat r
       let (ls, r) ← pCounted pLamItem r
       let (cs, r) ← pCounted pConKind r
-      if n < p + 1 then none else
-      some ({ kind := .spline, feature := f, nSplines := n, order := p, cyclic := cyc, byVar := b,
+      if n < p + 1 ∨ 3 < flag then none else
+      some ({ kind := .spline, feature := f, nSplines := n, order := p, cyclic := (flag % 2 == 1), byVar := b,
               dummy := false, lam := ls.map (·.2), penalties := ls.map (·.1), constraints := cs,
-              e0 := e0, e1 := e1 }, r)
+              e0 := e0, e1 := e1, catDtype := (2 ≤ flag) }, r)
   | "F" :: r => do
       let (f, r) ← pNat r
       let (n, r) ← pNat r
